@@ -205,6 +205,9 @@ pub enum Op {
     /// `for (i, v) in it.ids_and_values().take(max)`
     IdsValuesLoop { max: usize },
     Drain(How),
+    /// the thread panics in user code (unrelated to the iterator) while a drop guard is alive that pulls
+    /// `k` elements with `next()` during the unwinding; the thread ends afterwards
+    UnwindPull { k: usize },
     // ---- safe low-level calls of `AtomicIter` / `AtomicCounter` (C14 run-time part) ----
     LlGet { idx: usize },
     LlFetchOne,
@@ -329,6 +332,7 @@ impl fmt::Display for Op {
             Op::ValuesLoop { max } => write!(f, "ValuesLoop({})", u(*max)),
             Op::IdsValuesLoop { max } => write!(f, "IdsValuesLoop({})", u(*max)),
             Op::Drain(h) => write!(f, "Drain({})", h),
+            Op::UnwindPull { k } => write!(f, "UnwindPull({})", u(*k)),
             Op::LlGet { idx } => write!(f, "LlGet({})", u(*idx)),
             Op::LlFetchOne => write!(f, "LlFetchOne"),
             Op::LlFetchN { n, take } => write!(f, "LlFetchN({},{})", u(*n), u(*take)),
@@ -363,6 +367,7 @@ impl Op {
             ("ValuesLoop", 1) => Op::ValuesLoop { max: a(0)? },
             ("IdsValuesLoop", 1) => Op::IdsValuesLoop { max: a(0)? },
             ("Drain", 1) => Op::Drain(How::parse(args[0])?),
+            ("UnwindPull", 1) => Op::UnwindPull { k: a(0)? },
             ("LlGet", 1) => Op::LlGet { idx: a(0)? },
             ("LlFetchOne", 0) => Op::LlFetchOne,
             ("LlFetchN", 2) => Op::LlFetchN { n: a(0)?, take: a(1)? },
